@@ -326,6 +326,7 @@ func Main(t *testing.T, e Engine) {
 		}
 		t0 := time.Now()
 		seen := map[uint64]bool{}
+		perClass := map[string]int{}
 		for i := from; i < from+count; i++ {
 			if time.Now().After(deadline) {
 				break
@@ -370,7 +371,10 @@ func Main(t *testing.T, e Engine) {
 			if o.Nontrivial {
 				s.Nontrivial++
 			}
-			if o.Violation != "" && len(s.Violations) < maxViol {
+			// keep a few cases PER violation class (a frequent class, e.g. a listed known finding, must not
+			// crowd out a rare one that shows up later in the same process)
+			if o.Violation != "" && perClass[o.Violation] < maxViol && len(s.Violations) < 16*maxViol {
+				perClass[o.Violation]++
 				c.Sched = o.Choices
 				if c.Sched == nil {
 					c.Sched = []sim.Choice{}
